@@ -20,6 +20,7 @@ def follow (C : Cfg) : S → Option Tok → Prop
   | .test _ _ _, t => t ≠ some .leftParen
   | .attr _ _ _, t => ¬ chainTok t
   | .sub _ _ _, t => ¬ chainTok t
+  | .subSlice _ _ _ _ _, t => ¬ chainTok t
   | _, _ => True
 
 /-- the operators on the left spine of `s` are accepted by a loop running at minimum power `m` -/
@@ -30,6 +31,7 @@ def fitsLeft (C : Cfg) : S → Nat → Prop
   | .filter e _, m => ¬ (C.bp.binary .Pipe).1 < m ∧ fitsLeft C e m
   | .test e _ _, m => ¬ (C.bp.binary .Is).1 < m ∧ fitsLeft C e m
   | .index e _, m => fitsLeft C e m
+  | .slice e _ _ _, m => fitsLeft C e m
   | .filterA e _ _, m => ¬ (C.bp.binary .Pipe).1 < m ∧ fitsLeft C e m
   | .testA e _ _ _, m => ¬ (C.bp.binary .Is).1 < m ∧ fitsLeft C e m
   | _, _ => True
@@ -57,11 +59,27 @@ def WP (C : Cfg) : S → Prop
   | .sub e i _ => e.isChain = true ∧ WP C e ∧ WP C i ∧ follow C i (some .rightBracket)
   | .call name args =>
     (name ≠ "none" ∧ name ≠ "None" ∧ name ≠ "null" ∧ name ≠ "not") ∧ WPArgs C args
-  | .filterA e _ args => WP C e ∧ follow C e (some .pipe) ∧ WPArgs C args
+      ∧ args.isEnd = false
+  | .filterA e _ args => WP C e ∧ follow C e (some .pipe) ∧ WPArgs C args ∧ args.isEnd = false
   | .testA e name neg args => WP C e ∧ follow C e (some (.ident "is"))
-      ∧ (neg = false → name ≠ "not") ∧ WPArgs C args
-  | .arr items => WPItems C items
-  | .mapLit es => WPEntries C es
+      ∧ (neg = false → name ≠ "not") ∧ WPArgs C args ∧ args.isEnd = false
+  | .arr items => WPItems C items ∧ items.isEnd = false
+  | .mapLit es => WPEntries C es ∧ es.isEnd = false
+  | .argEnd => False
+  | .itemEnd => False
+  | .entryEnd => False
+  | .comp e key value target cond =>
+    WP C e ∧ value ∉ Gen.RESERVED_NAMES ∧ (∀ k, key = some k → k ∉ Gen.RESERVED_NAMES)
+      ∧ WP C target ∧ fitsLeft C target (C.bp.ternary + 1)
+      ∧ follow C target (some (if cond.isAbsent then Tok.rightBracket else Tok.ident "if"))
+      ∧ (if cond.isAbsent then True else WP C cond ∧ fitsLeft C cond (C.bp.ternary + 1))
+  | .slice e a b c => WP C e ∧ follow C e (some .leftBracket)
+      ∧ (if a.isAbsent then True else WP C a) ∧ (if b.isAbsent then True else WP C b)
+      ∧ (if c.isAbsent then True else WP C c)
+  | .subSlice e a b c _ => e.isChain = true ∧ WP C e
+      ∧ (if a.isAbsent then True else WP C a) ∧ (if b.isAbsent then True else WP C b)
+      ∧ (if c.isAbsent then True else WP C c)
+  | .absent => False
   | .entryNil => False
   | .entryKV .. => False
   | .entrySpread .. => False
@@ -72,16 +90,19 @@ def WP (C : Cfg) : S → Prop
 /-- the same for an argument list -/
 def WPArgs (C : Cfg) : S → Prop
   | .argNil => True
+  | .argEnd => True
   | .argCons k v rest => WP C v ∧ k ∉ S.argNames rest ∧ WPArgs C rest
   | _ => False
 /-- the same for a list of array entries -/
 def WPItems (C : Cfg) : S → Prop
   | .itemNil => True
+  | .itemEnd => True
   | .itemCons _ x rest => WP C x ∧ WPItems C rest
   | _ => False
 /-- the same for a list of map entries -/
 def WPEntries (C : Cfg) : S → Prop
   | .entryNil => True
+  | .entryEnd => True
   | .entryKV _ v rest => WP C v ∧ WPEntries C rest
   | .entrySpread x rest => WP C x ∧ WPEntries C rest
   | _ => False
@@ -122,6 +143,9 @@ theorem head_toks_ne_colon (s : S) : s.toks.head? ≠ some .colon := by
     refine head_append_ne _ _ _ (by cases sp <;> simp) (head_append_ne _ _ _ ihx
       (head_append_ne _ _ _ (by cases r <;> simp [S.sepToks]) ihr))
   | entryKV k v r ihv ihr => cases k <;> simp [S.toks, SKey.tok]
+  | slice e a b c ihe _ _ _ => simp only [S.toks]; exact head_append_ne _ _ _ ihe (by simp)
+  | subSlice e a b c o ihe _ _ _ =>
+    simp only [S.toks]; exact head_append_ne _ _ _ ihe (by cases o <;> simp)
   | _ => simp [S.toks]
 
 /-- an expression never starts with a closing bracket, a spread or a separator -/
@@ -157,6 +181,14 @@ theorem head_toks_expr (C : Cfg) (s : S) (h : WP C s) (t : Tok)
   | entryNil => simp [WP] at h
   | entryKV => simp [WP] at h
   | entrySpread => simp [WP] at h
+  | absent => simp [WP] at h
+  | argEnd => simp [WP] at h
+  | itemEnd => simp [WP] at h
+  | entryEnd => simp [WP] at h
+  | slice e a b c ihe _ _ _ =>
+    simp only [S.toks]; rw [head_toks_append _ _ (toks_ne_nil C e h.1)]; exact ihe h.1
+  | subSlice e a b c o ihe _ _ _ =>
+    simp only [S.toks]; rw [head_toks_append _ _ (toks_ne_nil C e h.2.1)]; exact ihe h.2.1
   | _ => rcases ht with rfl | rfl | rfl | rfl | rfl <;> simp [S.toks]
 
 theorem fitsLeft_zero (C : Cfg) (s : S) : fitsLeft C s 0 := by
@@ -250,7 +282,8 @@ theorem argCount_le (s : S) : (S.argNames s).length ≤ s.toks.length := by
 arguments into the accumulator -/
 def ArgsProp (C : Cfg) (s : S) : Prop :=
   ∀ (b : Nat) (acc : List (String × Expr)) (n : Nat) (rest : List Tok) (ad br : Nat),
-    WPArgs C s → (∀ k ∈ S.argNames s, acc.any (fun p => p.1 == k) = false) →
+    WPArgs C s → (s.isEnd = true → acc.isEmpty = false) →
+    (∀ k ∈ S.argNames s, acc.any (fun p => p.1 == k) = false) →
     (S.argNames s).length + 1 ≤ n → s.need ≤ b + 1 → (br + s.bneed ≤ C.maxBrackets ∧ ad + s.adneed ≤ C.maxArray) →
     kwargsLoop (innerParseExpression C b) n acc
         ⟨(if acc.isEmpty then [] else S.sepToks s) ++ (s.toks ++ .rightParen :: rest), ad, br⟩
@@ -282,12 +315,13 @@ theorem args_tail_head {C : Cfg} (r : S) (h : WPArgs C r) (rest : List Tok) :
 
 /-- a complete argument list between its parentheses -/
 theorem kwargs_of_args {C : Cfg} {args : S} (h : ArgsProp C args) (b : Nat) (rest : List Tok)
-    (ad br : Nat) (hw : WPArgs C args) (hneed : args.need ≤ b + 1)
+    (ad br : Nat) (hw : WPArgs C args) (hend : args.isEnd = false) (hneed : args.need ≤ b + 1)
     (hbr : br + args.bneed ≤ C.maxBrackets ∧ ad + args.adneed ≤ C.maxArray) :
     parseKwargs (innerParseExpression C b) ⟨.leftParen :: (args.toks ++ .rightParen :: rest), ad, br⟩
       = .ok (Expr.sortKwargs (S.eraseArgs args)) ⟨rest, ad, br⟩ := by
   apply parseKwargs_of_loop
-  have := h b [] ((args.toks ++ Tok.rightParen :: rest).length + 1) rest ad br hw (by simp)
+  have := h b [] ((args.toks ++ Tok.rightParen :: rest).length + 1) rest ad br hw
+    (by intro h'; rw [hend] at h'; cases h') (by simp)
     (by have := argCount_le args; simp; omega) hneed hbr
   simpa [sortKwargs_eq] using this
 
@@ -309,7 +343,7 @@ theorem itemCount_le {C : Cfg} (s : S) (h : WPItems C s) : itemCount s ≤ s.tok
 entries to the accumulator and keeps track of `literal_only` -/
 def ItemsProp (C : Cfg) (s : S) : Prop :=
   ∀ (b : Nat) (acc : List ArrayEntry) (lit : Bool) (n : Nat) (rest : List Tok) (ad br : Nat),
-    WPItems C s → itemCount s + 1 ≤ n → s.need ≤ b + 1 →
+    WPItems C s → (s.isEnd = true → acc.isEmpty = false) → itemCount s + 1 ≤ n → s.need ≤ b + 1 →
     (br + s.bneed ≤ C.maxBrackets ∧ ad + s.adneed ≤ C.maxArray) →
     arrayLoop C (innerParseExpression C b) n acc lit
         ⟨(if acc.isEmpty then [] else S.sepToks s) ++ (s.toks ++ .rightBracket :: rest), ad, br⟩
@@ -333,7 +367,8 @@ theorem entryCount_le (s : S) : entryCount s ≤ s.toks.length := by
 /-- ... and for a list of map entries: the loop of `parse_map` -/
 def EntriesProp (C : Cfg) (s : S) : Prop :=
   ∀ (b : Nat) (acc : List MapEntry) (lit : Bool) (n : Nat) (rest : List Tok) (ad br : Nat),
-    WPEntries C s → entryCount s + 1 ≤ n → s.need ≤ b + 1 →
+    WPEntries C s → (s.isEnd = true → acc.isEmpty = false) → entryCount s + 1 ≤ n →
+    s.need ≤ b + 1 →
     (br + s.bneed ≤ C.maxBrackets ∧ ad + s.adneed ≤ C.maxArray) →
     mapLoop (innerParseExpression C b) n acc lit
         ⟨(if acc.isEmpty then [] else S.sepToks s) ++ (s.toks ++ .rightBrace :: rest), ad, br⟩
@@ -347,6 +382,86 @@ theorem entries_tail_head {C : Cfg} (r : S) (h : WPEntries C r) (rest : List Tok
   cases r <;> simp_all [WPEntries, S.sepToks, S.toks]
 
 theorem classify_rightBrace : classify .rightBrace = .other := by decide
+
+theorem classify_colon : classify .colon = .other := by decide
+
+theorem absent_of_isAbsent (p : S) (h : p.isAbsent = true) : p = .absent := by
+  cases p <;> simp_all [S.isAbsent]
+
+/-- the bracketed part of a slice, for parts that satisfy the induction statement -/
+theorem slice_parsed {C : Cfg} (E : Expr) (a b c : S) (o : Bool) (b' : Nat) (rest : List Tok)
+    (ad br : Nat) (iha : LoopProp C a) (ihb : LoopProp C b) (ihc : LoopProp C c)
+    (hwa : if a.isAbsent then True else WP C a) (hwb : if b.isAbsent then True else WP C b)
+    (hwc : if c.isAbsent then True else WP C c)
+    (hna : a.isAbsent = false → a.need ≤ b') (hnb : b.isAbsent = false → b.need ≤ b')
+    (hnc : c.isAbsent = false → c.need ≤ b')
+    (hbr : br + 1 + max a.bneed (max b.bneed c.bneed) ≤ C.maxBrackets)
+    (had : ad + max a.adneed (max b.adneed c.adneed) ≤ C.maxArray) :
+    parseSubscript C (innerParseExpression C b') E
+        ⟨(if o then Tok.questionMarkLeftBracket else Tok.leftBracket) :: (a.toks ++ .colon
+          :: (b.toks ++ ((if c.isAbsent then [] else [Tok.colon]) ++ (c.toks ++ .rightBracket :: rest)))),
+          ad, br⟩
+      = .ok (.slice E (if a.isAbsent then none else some a.erase)
+          (if b.isAbsent then none else some b.erase) (if c.isAbsent then none else some c.erase) o)
+          ⟨rest, ad, br⟩ := by
+  have hcol : ∀ s : S, follow C s (some .colon) :=
+    follow_closer _ classify_colon (by simp [chainTok]) (by simp)
+  have hrb : ∀ s : S, follow C s (some .rightBracket) :=
+    follow_closer _ classify_rightBracket (by simp [chainTok]) (by simp)
+  have key := subscript_slice C (innerParseExpression C b') E o
+    (if a.isAbsent then none else some a.erase) (if b.isAbsent then none else some b.erase)
+    (if c.isAbsent then none else some c.erase)
+    (a.toks ++ .colon :: (b.toks ++ ((if c.isAbsent then [] else [Tok.colon])
+      ++ (c.toks ++ .rightBracket :: rest))))
+    (b.toks ++ ((if c.isAbsent then [] else [Tok.colon]) ++ (c.toks ++ .rightBracket :: rest)))
+    ((if c.isAbsent then [] else [Tok.colon]) ++ (c.toks ++ .rightBracket :: rest))
+    rest ad br ad (br + 1) ad (br + 1) ad (br + 1) (by omega)
+  simp only [Nat.add_sub_cancel] at key
+  apply key
+  · -- start
+    cases hca : a.isAbsent
+    · simp only [hca, Bool.false_eq_true, if_false] at hwa ⊢
+      refine ⟨?_, complete (iha b' 0 _ ad (br + 1) hwa (fitsLeft_zero C a) (by simpa using hcol a)
+        (hna hca) (by omega)) (by simp [stopsTok, classify_colon])⟩
+      rw [head_toks_append _ _ (toks_ne_nil C a hwa)]
+      exact head_toks_ne_colon a
+    · have := absent_of_isAbsent a hca
+      subst this
+      simp [S.toks]
+  · -- stop
+    have hhead : ((if c.isAbsent then [] else [Tok.colon]) ++ (c.toks ++ Tok.rightBracket :: rest)).head?
+        = some (if c.isAbsent then Tok.rightBracket else Tok.colon) := by
+      cases hcc : c.isAbsent
+      · simp
+      · have := absent_of_isAbsent c hcc
+        subst this
+        simp [S.toks]
+    cases hcb : b.isAbsent
+    · simp only [hcb, Bool.false_eq_true, if_false] at hwb ⊢
+      refine ⟨?_, ?_, complete (ihb b' 0 _ ad (br + 1) hwb (fitsLeft_zero C b)
+        (by rw [hhead]; cases c.isAbsent
+            · simpa using hcol b
+            · simpa using hrb b)
+        (hnb hcb) (by omega))
+        (by rw [hhead]; cases c.isAbsent <;> simp [stopsTok, classify_colon, classify_rightBracket])⟩
+      · rw [head_toks_append _ _ (toks_ne_nil C b hwb)]
+        exact head_toks_ne_colon b
+      · rw [head_toks_append _ _ (toks_ne_nil C b hwb)]
+        exact head_toks_expr C b hwb _ (Or.inl rfl)
+    · have := absent_of_isAbsent b hcb
+      subst this
+      simp only [S.toks, List.nil_append, if_true]
+      rw [hhead]
+      cases c.isAbsent <;> simp
+  · -- step
+    cases hcc : c.isAbsent
+    · simp only [hcc, Bool.false_eq_true, if_false] at hwc ⊢
+      exact ⟨c.toks ++ .rightBracket :: rest, by simp,
+        complete (ihc b' 0 _ ad (br + 1) hwc (fitsLeft_zero C c) (by simpa using hrb c) (hnc hcc)
+          (by omega)) (by simp [stopsTok, classify_rightBracket])⟩
+    · have := absent_of_isAbsent c hcc
+      subst this
+      simp [S.toks]
 
 /-- the list-shaped properties hold vacuously for what is not a list -/
 macro "vac_lists" : tactic =>
@@ -607,7 +722,7 @@ theorem parse_both (C : Cfg) (s : S) :
     refine ⟨by intro _ _ _ _ _ h; simp [WP] at h, by intro h; simp [S.isChain] at h, ?_,
       by intro _ _ _ _ _ _ _ h; simp [WPItems] at h,
       by intro _ _ _ _ _ _ _ h; simp [WPEntries] at h⟩
-    intro b acc n rest ad br _ _ hn _ _
+    intro b acc n rest ad br _ _ _ hn _ _
     obtain ⟨n', rfl⟩ : ∃ n', n = n' + 1 := ⟨n - 1, by omega⟩
     have : (if acc.isEmpty then [] else S.sepToks S.argNil) ++ (S.argNil.toks ++ Tok.rightParen :: rest)
         = Tok.rightParen :: rest := by simp [S.sepToks, S.toks]
@@ -617,7 +732,7 @@ theorem parse_both (C : Cfg) (s : S) :
     refine ⟨by intro _ _ _ _ _ h; simp [WP] at h, by intro h; simp [S.isChain] at h, ?_,
       by intro _ _ _ _ _ _ _ h; simp [WPItems] at h,
       by intro _ _ _ _ _ _ _ h; simp [WPEntries] at h⟩
-    intro b acc n rest ad br hwp hfresh hn hneed hbr
+    intro b acc n rest ad br hwp _ hfresh hn hneed hbr
     obtain ⟨hwv, hk, hwr⟩ := hwp
     simp only [S.need] at hneed
     simp only [S.bneed, S.adneed] at hbr
@@ -638,6 +753,7 @@ theorem parse_both (C : Cfg) (s : S) :
       rw [← htail]; simp [S.sepToks, S.toks]
     rw [e1, kwargs_step _ n' acc k _ _ ad br _ (hfresh k (by simp [S.argNames])) hv, ← htail]
     have := ihr.2.2.1 b (Expr.insertKwarg k v.erase acc) n' rest ad br hwr
+      (fun _ => insertKwarg_isEmpty _ _ _)
       (by
         intro k' hk'
         exact any_insertKwarg k k' _ acc (by intro h; subst h; exact hk hk')
@@ -649,7 +765,7 @@ theorem parse_both (C : Cfg) (s : S) :
     refine ⟨?_, by intro h; simp [S.isChain] at h, by vac_lists⟩
     intro b m rest ad br hwp _ _ hneed hbr
     obtain ⟨b', rfl⟩ : ∃ b', b = b' + 1 := ⟨b - 1, by have := need_pos args; simp [S.need] at hneed; omega⟩
-    obtain ⟨hname, hwa⟩ := hwp
+    obtain ⟨hname, hwa, hend⟩ := hwp
     simp only [S.need] at hneed
     simp only [S.bneed, S.adneed] at hbr
     refine ⟨rest.length + 1, Nat.le_refl _, ?_⟩
@@ -657,13 +773,13 @@ theorem parse_both (C : Cfg) (s : S) :
         = .ident name :: .leftParen :: (args.toks ++ .rightParen :: rest) := by simp [S.toks]
     rw [this, inner_succ]
     exact parseExprBp_of_prefix _ _ _ _ _ _ _ _
-      (prefix_call _ _ _ _ _ _ _ _ hname (kwargs_of_args ih.2.2.1 b' rest ad br hwa hneed hbr))
+      (prefix_call _ _ _ _ _ _ _ _ hname (kwargs_of_args ih.2.2.1 b' rest ad br hwa hend hneed hbr))
   | filterA e name args ihe iha =>
     refine ⟨?_, by intro h; simp [S.isChain] at h, by vac_lists⟩
     have ihe : LoopProp C _ := ihe.1
     intro b m rest ad br hwp hfit _ hneed hbr
     obtain ⟨b', rfl⟩ : ∃ b', b = b' + 1 := ⟨b - 1, by have := need_pos e; simp [S.need] at hneed; omega⟩
-    obtain ⟨hwe, hfe, hwa⟩ := hwp
+    obtain ⟨hwe, hfe, hwa, hend⟩ := hwp
     obtain ⟨hm, hfite⟩ := hfit
     simp only [S.need] at hneed
     simp only [S.bneed, S.adneed] at hbr
@@ -671,7 +787,7 @@ theorem parse_both (C : Cfg) (s : S) :
         :: (args.toks ++ .rightParen :: rest)) := by simp [S.toks]
     obtain ⟨n1, hn1, hl⟩ := ihe (b' + 1) m (.pipe :: .ident name :: .leftParen
         :: (args.toks ++ .rightParen :: rest)) ad br hwe hfite hfe (by omega) (by omega)
-    have hk := kwargs_of_args iha.2.2.1 b' rest ad br hwa (by omega) (by omega)
+    have hk := kwargs_of_args iha.2.2.1 b' rest ad br hwa hend (by omega) (by omega)
     obtain ⟨n1', rfl⟩ : ∃ n', n1 = n' + 1 := ⟨n1 - 1, by simp at hn1; omega⟩
     refine ⟨n1', by simp at hn1; omega, ?_⟩
     rw [e1, hl]
@@ -682,11 +798,11 @@ theorem parse_both (C : Cfg) (s : S) :
     have ihe : LoopProp C _ := ihe.1
     intro b m rest ad br hwp hfit _ hneed hbr
     obtain ⟨b', rfl⟩ : ∃ b', b = b' + 1 := ⟨b - 1, by have := need_pos e; simp [S.need] at hneed; omega⟩
-    obtain ⟨hwe, hfe, hname, hwa⟩ := hwp
+    obtain ⟨hwe, hfe, hname, hwa, hend⟩ := hwp
     obtain ⟨hm, hfite⟩ := hfit
     simp only [S.need] at hneed
     simp only [S.bneed, S.adneed] at hbr
-    have hk := kwargs_of_args iha.2.2.1 b' rest ad br hwa (by omega) (by omega)
+    have hk := kwargs_of_args iha.2.2.1 b' rest ad br hwa hend (by omega) (by omega)
     cases neg with
     | false =>
       have e1 : (S.testA e name false args).toks ++ rest = e.toks ++ (.ident "is" :: .ident name
@@ -716,7 +832,7 @@ theorem parse_both (C : Cfg) (s : S) :
     refine ⟨by intro _ _ _ _ _ h; simp [WP] at h, by intro h; simp [S.isChain] at h,
       by intro _ _ _ _ _ _ h; simp [WPArgs] at h, ?_,
       by intro _ _ _ _ _ _ _ h; simp [WPEntries] at h⟩
-    intro b acc lit n rest ad br _ hn _ _
+    intro b acc lit n rest ad br _ _ hn _ _
     obtain ⟨n', rfl⟩ : ∃ n', n = n' + 1 := ⟨n - 1, by omega⟩
     have : (if acc.isEmpty then [] else S.sepToks S.itemNil) ++ (S.itemNil.toks ++ Tok.rightBracket :: rest)
         = Tok.rightBracket :: rest := by simp [S.sepToks, S.toks]
@@ -726,7 +842,7 @@ theorem parse_both (C : Cfg) (s : S) :
     refine ⟨by intro _ _ _ _ _ h; simp [WP] at h, by intro h; simp [S.isChain] at h,
       by intro _ _ _ _ _ _ h; simp [WPArgs] at h, ?_,
       by intro _ _ _ _ _ _ _ h; simp [WPEntries] at h⟩
-    intro b acc lit n rest ad br hwp hn hneed hbr
+    intro b acc lit n rest ad br hwp _ hn hneed hbr
     obtain ⟨hwx, hwr⟩ := hwp
     simp only [S.need] at hneed
     simp only [S.bneed, S.adneed] at hbr
@@ -755,7 +871,7 @@ theorem parse_both (C : Cfg) (s : S) :
             exact head_toks_expr C x hwx _ (Or.inr (Or.inl rfl)))
         hx hcloser.2.2, ← htail]
       have := hrec (acc ++ [.item x.erase]) (lit && x.erase.isLiteral) n' rest ad br hwr
-        (by omega) (by omega) (by omega)
+        (fun _ => by cases acc <;> simp) (by omega) (by omega) (by omega)
       have hne : ∀ (y : ArrayEntry), (acc ++ [y]).isEmpty = false := by intro y; cases acc <;> simp
       simp only [hne, Bool.false_eq_true, if_false] at this
       rw [this]
@@ -767,7 +883,7 @@ theorem parse_both (C : Cfg) (s : S) :
         rw [← htail]; simp [S.sepToks, S.toks]
       rw [e1, array_step_spread C _ n' acc lit _ _ ad br _ hx, ← htail]
       have := hrec (acc ++ [.spread x.erase]) false n' rest ad br hwr
-        (by omega) (by omega) (by omega)
+        (fun _ => by cases acc <;> simp) (by omega) (by omega) (by omega)
       have hne : ∀ (y : ArrayEntry), (acc ++ [y]).isEmpty = false := by intro y; cases acc <;> simp
       simp only [hne, Bool.false_eq_true, if_false] at this
       rw [this]
@@ -778,12 +894,14 @@ theorem parse_both (C : Cfg) (s : S) :
     obtain ⟨b', rfl⟩ : ∃ b', b = b' + 1 := ⟨b - 1, by have := need_pos items; simp [S.need] at hneed; omega⟩
     simp only [S.need] at hneed
     simp only [S.bneed, S.adneed] at hbr
-    have hw : WPItems C items := hwp
+    have hw : WPItems C items := hwp.1
+    have hend : items.isEnd = false := hwp.2
     refine ⟨rest.length + 1, Nat.le_refl _, ?_⟩
     have e1 : (S.arr items).toks ++ rest
         = .leftBracket :: (items.toks ++ .rightBracket :: rest) := by simp [S.toks]
     have hloop := ih.2.2.2.1 b' [] true ((items.toks ++ Tok.rightBracket :: rest).length + 1) rest
-      (ad + 1) br hw (by have := itemCount_le items hw; simp; omega) hneed (by omega)
+      (ad + 1) br hw (by intro h'; rw [hend] at h'; cases h')
+      (by have := itemCount_le items hw; simp; omega) hneed (by omega)
     simp only [List.isEmpty_nil, if_true, List.nil_append, Bool.true_and] at hloop
     rw [e1, inner_succ]
     have hp := prefix_array C (innerParseExpression C b') _ _ _ _ ad br (ad + 1) br (by omega) hloop
@@ -794,7 +912,7 @@ theorem parse_both (C : Cfg) (s : S) :
     refine ⟨by intro _ _ _ _ _ h; simp [WP] at h, by intro h; simp [S.isChain] at h,
       by intro _ _ _ _ _ _ h; simp [WPArgs] at h,
       by intro _ _ _ _ _ _ _ h; simp [WPItems] at h, ?_⟩
-    intro b acc lit n rest ad br _ hn _ _
+    intro b acc lit n rest ad br _ _ hn _ _
     obtain ⟨n', rfl⟩ : ∃ n', n = n' + 1 := ⟨n - 1, by omega⟩
     have : (if acc.isEmpty then [] else S.sepToks S.entryNil) ++ (S.entryNil.toks ++ Tok.rightBrace :: rest)
         = Tok.rightBrace :: rest := by simp [S.sepToks, S.toks]
@@ -804,7 +922,7 @@ theorem parse_both (C : Cfg) (s : S) :
     refine ⟨by intro _ _ _ _ _ h; simp [WP] at h, by intro h; simp [S.isChain] at h,
       by intro _ _ _ _ _ _ h; simp [WPArgs] at h,
       by intro _ _ _ _ _ _ _ h; simp [WPItems] at h, ?_⟩
-    intro b acc lit n rest ad br hwp hn hneed hbr
+    intro b acc lit n rest ad br hwp _ hn hneed hbr
     obtain ⟨hwv, hwr⟩ := hwp
     simp only [S.need] at hneed
     simp only [S.bneed, S.adneed] at hbr
@@ -825,7 +943,7 @@ theorem parse_both (C : Cfg) (s : S) :
       rw [← htail]; simp [S.sepToks, S.toks]
     rw [e1, map_step_kv _ n' acc lit k _ _ ad br _ hv, ← htail]
     have := ihr.2.2.2.2 b (acc ++ [.keyValue k.key v.erase]) (lit && v.erase.isLiteral) n' rest ad br
-      hwr (by omega) (by omega) (by omega)
+      hwr (fun _ => by cases acc <;> simp) (by omega) (by omega) (by omega)
     have hne : ∀ (y : MapEntry), (acc ++ [y]).isEmpty = false := by intro y; cases acc <;> simp
     simp only [hne, Bool.false_eq_true, if_false] at this
     rw [this]
@@ -834,7 +952,7 @@ theorem parse_both (C : Cfg) (s : S) :
     refine ⟨by intro _ _ _ _ _ h; simp [WP] at h, by intro h; simp [S.isChain] at h,
       by intro _ _ _ _ _ _ h; simp [WPArgs] at h,
       by intro _ _ _ _ _ _ _ h; simp [WPItems] at h, ?_⟩
-    intro b acc lit n rest ad br hwp hn hneed hbr
+    intro b acc lit n rest ad br hwp _ hn hneed hbr
     obtain ⟨hwx, hwr⟩ := hwp
     simp only [S.need] at hneed
     simp only [S.bneed, S.adneed] at hbr
@@ -855,7 +973,7 @@ theorem parse_both (C : Cfg) (s : S) :
       rw [← htail]; simp [S.sepToks, S.toks]
     rw [e1, map_step_spread _ n' acc lit _ _ ad br _ hx, ← htail]
     have := ihr.2.2.2.2 b (acc ++ [.spread x.erase]) false n' rest ad br
-      hwr (by omega) (by omega) (by omega)
+      hwr (fun _ => by cases acc <;> simp) (by omega) (by omega) (by omega)
     have hne : ∀ (y : MapEntry), (acc ++ [y]).isEmpty = false := by intro y; cases acc <;> simp
     simp only [hne, Bool.false_eq_true, if_false] at this
     rw [this]
@@ -866,16 +984,174 @@ theorem parse_both (C : Cfg) (s : S) :
     obtain ⟨b', rfl⟩ : ∃ b', b = b' + 1 := ⟨b - 1, by have := need_pos es; simp [S.need] at hneed; omega⟩
     simp only [S.need] at hneed
     simp only [S.bneed, S.adneed] at hbr
-    have hw : WPEntries C es := hwp
+    have hw : WPEntries C es := hwp.1
+    have hend : es.isEnd = false := hwp.2
     refine ⟨rest.length + 1, Nat.le_refl _, ?_⟩
     have e1 : (S.mapLit es).toks ++ rest
         = .leftBrace :: (es.toks ++ .rightBrace :: rest) := by simp [S.toks]
     have hloop := ih.2.2.2.2 b' [] true ((es.toks ++ Tok.rightBrace :: rest).length + 1) rest
-      ad br hw (by have := entryCount_le es; simp; omega) hneed hbr
+      ad br hw (by intro h'; rw [hend] at h'; cases h')
+      (by have := entryCount_le es; simp; omega) hneed hbr
     simp only [List.isEmpty_nil, if_true, List.nil_append, Bool.true_and] at hloop
     rw [e1, inner_succ]
     have hp := prefix_map C (innerParseExpression C b') _ _ _ _ ad br ad br hloop
     simpa [S.erase, S.foldMap] using parseExprBp_of_prefix _ _ m _ _ _ _ _ hp
+
+  | absent =>
+    exact ⟨by intro _ _ _ _ _ h; simp [WP] at h, by intro h; simp [S.isChain] at h, by vac_lists⟩
+  | comp e key value target cond ihe iht ihc =>
+    refine ⟨?_, by intro h; simp [S.isChain] at h, by vac_lists⟩
+    intro b m rest ad br hwp _ _ hneed hbr
+    obtain ⟨b', rfl⟩ : ∃ b', b = b' + 1 := ⟨b - 1, by have := need_pos e; simp [S.need] at hneed; omega⟩
+    obtain ⟨hwe, hval, hkey, hwt, hfitt, hfolt, hcond⟩ := hwp
+    simp only [S.need] at hneed
+    simp only [S.bneed, S.adneed] at hbr
+    refine ⟨rest.length + 1, Nat.le_refl _, ?_⟩
+    have hfor : classify (.ident "for") = .other := by decide
+    -- what follows the target
+    let R : List Tok := (if cond.isAbsent then [] else [Tok.ident "if"]) ++ (cond.toks ++ .rightBracket :: rest)
+    have e1 : (S.comp e key value target cond).toks ++ rest
+        = .leftBracket :: (e.toks ++ (.ident "for" ::
+            (S.keyToks key ++ [.ident value, .ident "in"] ++ (target.toks ++ R)))) := by
+      simp [S.toks, R]
+    have hx := complete (ihe.1 b' 0 (.ident "for" ::
+            (S.keyToks key ++ [.ident value, .ident "in"] ++ (target.toks ++ R))) (ad + 1) br hwe
+        (fitsLeft_zero C e) (follow_closer _ hfor (by simp [chainTok]) (by simp) e)
+        (by omega) (by omega)) (by simp [stopsTok, hfor])
+    have hRhead : R.head? = some (if cond.isAbsent then Tok.rightBracket else Tok.ident "if") := by
+      cases hca : cond.isAbsent
+      · simp [R, hca]
+      · have : cond = .absent := by cases cond <;> simp_all [S.isAbsent]
+        subst this
+        simp [R, S.isAbsent, S.toks]
+    have ht := complete (iht.1 b' (C.bp.ternary + 1) R ad br hwt hfitt (by rw [hRhead]; exact hfolt)
+        (by omega) (by omega))
+      (by
+        rw [hRhead]
+        cases cond.isAbsent
+        · simp [stopsTok, classify_if]
+        · simp [stopsTok, classify_rightBracket])
+    have hl : parseListComprehension C (innerParseExpression C b') e.erase
+          ⟨compHead key value ++ (target.toks ++ R), ad, br⟩
+        = .ok (.listComprehension e.erase key value target.erase
+            (if cond.isAbsent then none else some cond.erase)) ⟨rest, ad, br⟩ := by
+      apply listComp_step C _ _ _ key value _ R ad br ad br _ _ hval hkey ht
+      cases hca : cond.isAbsent
+      · -- a condition is present
+        simp only [hca, Bool.false_eq_true, if_false] at hcond ⊢
+        have hc := complete (ihc.1 b' (C.bp.ternary + 1) (.rightBracket :: rest) ad br hcond.1 hcond.2
+            (follow_closer _ classify_rightBracket (by simp [chainTok]) (by simp) cond)
+            (by omega) (by omega)) (by simp [stopsTok, classify_rightBracket])
+        exact ⟨cond.toks ++ .rightBracket :: rest, rest, ad, br, by simp [R, hca], hc, rfl⟩
+      · have : cond = .absent := by cases cond <;> simp_all [S.isAbsent]
+        subst this
+        simp only [S.isAbsent, if_true]
+        exact ⟨rest, by simp [R, S.isAbsent, S.toks], rfl⟩
+    rw [e1, inner_succ]
+    have hp := prefix_comp C (innerParseExpression C b') e.erase _ _ _ ad br (ad + 1) br _ (by omega)
+      (by rw [head_toks_append _ _ (toks_ne_nil C e hwe)]
+          exact head_toks_expr C e hwe _ (Or.inl rfl))
+      (by rw [head_toks_append _ _ (toks_ne_nil C e hwe)]
+          exact head_toks_expr C e hwe _ (Or.inr (Or.inl rfl)))
+      hx (by simpa [compHead] using hl)
+    simpa [S.erase] using parseExprBp_of_prefix _ _ m _ _ _ _ _ hp
+
+  | slice e a b c ihe iha ihb ihc =>
+    refine ⟨?_, by intro h; simp [S.isChain] at h, by vac_lists⟩
+    intro b0 m rest ad br hwp hfit _ hneed hbr
+    obtain ⟨b', rfl⟩ : ∃ b', b0 = b' + 1 := ⟨b0 - 1, by have := need_pos e; simp [S.need] at hneed; omega⟩
+    obtain ⟨hwe, hfe, hwa, hwb, hwc⟩ := hwp
+    simp only [S.need] at hneed
+    simp only [S.bneed, S.adneed] at hbr
+    simp only [fitsLeft] at hfit
+    have e1 : (S.slice e a b c).toks ++ rest
+        = e.toks ++ (.leftBracket :: (a.toks ++ .colon :: (b.toks
+            ++ ((if c.isAbsent then [] else [Tok.colon]) ++ (c.toks ++ .rightBracket :: rest))))) := by
+      simp [S.toks]
+    obtain ⟨n1, hn1, hl⟩ := ihe.1 (b' + 1) m (.leftBracket :: (a.toks ++ .colon :: (b.toks
+            ++ ((if c.isAbsent then [] else [Tok.colon]) ++ (c.toks ++ .rightBracket :: rest))))) ad br
+      hwe hfit hfe (by omega) (by omega)
+    have hs := slice_parsed (C := C) e.erase a b c false b' rest ad br iha.1 ihb.1 ihc.1 hwa hwb hwc
+      (by intro _; omega) (by intro _; omega) (by intro _; omega) (by omega) (by omega)
+    simp only [Bool.false_eq_true, if_false] at hs
+    obtain ⟨n1', rfl⟩ : ∃ n', n1 = n' + 1 := ⟨n1 - 1, by simp at hn1; omega⟩
+    refine ⟨n1', by simp at hn1; omega, ?_⟩
+    rw [e1, hl]
+    simp only [Nat.add_sub_cancel]
+    simpa [S.erase] using loop_subscript C _ m n1' _ _ false _ ad br _ hs
+  | subSlice e a b c o ihe iha ihb ihc =>
+    have hq : ChainProp C (.subSlice e a b c o) := by
+      intro _ b0 rest ad br hwp hp hneed hbr
+      obtain ⟨hce, hwe, hwa, hwb, hwc⟩ := hwp
+      simp only [S.need] at hneed
+      simp only [S.bneed, S.adneed] at hbr
+      have h3 : a.need ≤ b0 ∧ b.need ≤ b0 ∧ c.need ≤ b0 ∧ e.need ≤ b0 + 1 := by
+        clear hwa hwb hwc hwe hce hp hbr ihe iha ihb ihc
+        omega
+      have h4 : br + 1 + max a.bneed (max b.bneed c.bneed) ≤ C.maxBrackets
+          ∧ ad + max a.adneed (max b.adneed c.adneed) ≤ C.maxArray
+          ∧ br + e.bneed ≤ C.maxBrackets ∧ ad + e.adneed ≤ C.maxArray := by
+        clear hwa hwb hwc hwe hce hp hneed h3 ihe iha ihb ihc
+        omega
+      have hs := slice_parsed (C := C) e.erase a b c o b0 rest ad br iha.1 ihb.1 ihc.1 hwa hwb hwc
+        (fun _ => h3.1) (fun _ => h3.2.1) (fun _ => h3.2.2.1) h4.1 h4.2.1
+      have hne : e.need ≤ b0 + 1 := h3.2.2.2
+      have hbe : br + e.bneed ≤ C.maxBrackets ∧ ad + e.adneed ≤ C.maxArray := h4.2.2
+      clear hneed hbr
+      have e1 : (S.subSlice e a b c o).toks ++ rest
+          = e.toks ++ ((if o then Tok.questionMarkLeftBracket else Tok.leftBracket)
+              :: (a.toks ++ .colon :: (b.toks
+            ++ ((if c.isAbsent then [] else [Tok.colon]) ++ (c.toks ++ .rightBracket :: rest))))) := by
+        simp [S.toks]
+      obtain ⟨n1, hn1, hl⟩ := ihe.2.1 hce b0
+        ((if o then Tok.questionMarkLeftBracket else Tok.leftBracket)
+              :: (a.toks ++ .colon :: (b.toks
+            ++ ((if c.isAbsent then [] else [Tok.colon]) ++ (c.toks ++ .rightBracket :: rest))))) ad br hwe
+        (by cases o <;> simp) hne hbe
+      obtain ⟨n1', rfl⟩ : ∃ n', n1 = n' + 1 := ⟨n1 - 1, by simp at hn1; omega⟩
+      refine ⟨n1', by simp at hn1; omega, ?_⟩
+      rw [e1, hl]
+      have hstep := chain_subscript C (innerParseExpression C b0) e.chainRoot n1' e.erase _ o _ ad br _ hs
+      rw [hstep]
+      rfl
+    refine ⟨?_, hq, by vac_lists⟩
+    intro b0 m rest ad br hwp hfit hfol hneed hbr
+    exact loop_of_chain hq (by simpa [S.isChain] using hwp.1) (fun _ => Iff.rfl)
+      b0 m rest ad br hwp hfit hfol hneed hbr
+
+  | argEnd =>
+    refine ⟨by intro _ _ _ _ _ h; simp [WP] at h, by intro h; simp [S.isChain] at h, ?_,
+      by intro _ _ _ _ _ _ _ h; simp [WPItems] at h,
+      by intro _ _ _ _ _ _ _ h; simp [WPEntries] at h⟩
+    intro b acc n rest ad br _ hend _ hn _ _
+    obtain ⟨n', rfl⟩ : ∃ n', n = n' + 1 := ⟨n - 1, by omega⟩
+    have hacc := hend rfl
+    have : (if acc.isEmpty then [] else S.sepToks S.argEnd) ++ (S.argEnd.toks ++ Tok.rightParen :: rest)
+        = Tok.comma :: Tok.rightParen :: rest := by simp [S.sepToks, S.toks]
+    rw [this, kwargs_trailing _ _ _ _ _ _ hacc]
+    simp [insertAll, S.eraseArgs]
+  | itemEnd =>
+    refine ⟨by intro _ _ _ _ _ h; simp [WP] at h, by intro h; simp [S.isChain] at h,
+      by intro _ _ _ _ _ _ h; simp [WPArgs] at h, ?_,
+      by intro _ _ _ _ _ _ _ h; simp [WPEntries] at h⟩
+    intro b acc lit n rest ad br _ hend hn _ _
+    obtain ⟨n', rfl⟩ : ∃ n', n = n' + 1 := ⟨n - 1, by omega⟩
+    have hacc := hend rfl
+    have : (if acc.isEmpty then [] else S.sepToks S.itemEnd) ++ (S.itemEnd.toks ++ Tok.rightBracket :: rest)
+        = Tok.comma :: Tok.rightBracket :: rest := by simp [S.sepToks, S.toks]
+    rw [this, array_trailing _ _ _ _ _ _ _ _ hacc]
+    simp [S.eraseItems, litOf]
+  | entryEnd =>
+    refine ⟨by intro _ _ _ _ _ h; simp [WP] at h, by intro h; simp [S.isChain] at h,
+      by intro _ _ _ _ _ _ h; simp [WPArgs] at h,
+      by intro _ _ _ _ _ _ _ h; simp [WPItems] at h, ?_⟩
+    intro b acc lit n rest ad br _ hend hn _ _
+    obtain ⟨n', rfl⟩ : ∃ n', n = n' + 1 := ⟨n - 1, by omega⟩
+    have hacc := hend rfl
+    have : (if acc.isEmpty then [] else S.sepToks S.entryEnd) ++ (S.entryEnd.toks ++ Tok.rightBrace :: rest)
+        = Tok.comma :: Tok.rightBrace :: rest := by simp [S.sepToks, S.toks]
+    rw [this, map_trailing _ _ _ _ _ _ _ hacc]
+    simp [S.eraseEntries, S.mapLitOf]
 
 /-- The Pratt-parser induction (the statement used by the property theorems). -/
 theorem parse_loop (C : Cfg) (s : S) : LoopProp C s := (parse_both C s).1
